@@ -801,7 +801,53 @@ pub fn link_references(rng: &mut Rng, stream: &mut Stream) {
             _ => None,
         })
         .collect();
-    for i in stream.insts.iter_mut() {
+    let fn_types: Vec<u32> = stream.insts.iter().filter(|i| i.is("TypeFunction")).filter_map(|i| i.rid).collect();
+    let voids: Vec<u32> = stream.insts.iter().filter(|i| i.is("TypeVoid")).filter_map(|i| i.rid).collect();
+    let all_types: Vec<u32> = stream.insts.iter().filter(|i| i.name().starts_with("Type")).filter_map(|i| i.rid).collect();
+    // labels of each function (by position of its OpFunction)
+    let mut labels_of: Vec<(usize, Vec<u32>)> = vec![];
+    for (k, i) in stream.insts.iter().enumerate() {
+        if i.is("Function") {
+            labels_of.push((k, vec![]));
+        } else if i.is("Label") {
+            if let (Some(l), Some(r)) = (labels_of.last_mut(), i.rid) {
+                l.1.push(r);
+            }
+        }
+    }
+    for (pos, i) in stream.insts.iter_mut().enumerate() {
+        if i.is("Function") {
+            // result type: a declared type (void among them); function type: a declared OpTypeFunction
+            if rng.chance(1, 2) {
+                let pool = if !voids.is_empty() && rng.chance(1, 2) { &voids } else { &all_types };
+                if !pool.is_empty() {
+                    i.rtype = Some(*rng.pick(pool));
+                }
+            }
+            if !fn_types.is_empty() && rng.chance(1, 2) {
+                if let Some(MOp::W(k, v)) = i.ops.get_mut(1) {
+                    if *k == s.k_idref {
+                        *v = *rng.pick(&fn_types);
+                    }
+                }
+            }
+            continue;
+        }
+        if (i.is("Branch") || i.is("BranchConditional") || i.is("LoopMerge") || i.is("SelectionMerge")) && rng.chance(1, 3) {
+            // a label of the same function: the entry block, the block itself, any other
+            if let Some((_, labels)) = labels_of.iter().rev().find(|(k, _)| *k < pos) {
+                if !labels.is_empty() {
+                    let target = if rng.chance(1, 2) { labels[0] } else { *rng.pick(labels) };
+                    let slot = if i.is("BranchConditional") { 1 + rng.below(2) as usize } else { 0 };
+                    if let Some(MOp::W(k, v)) = i.ops.get_mut(slot) {
+                        if *k == s.k_idref {
+                            *v = target;
+                        }
+                    }
+                }
+            }
+            continue;
+        }
         if i.is("EntryPoint") {
             if !funcs.is_empty() && rng.chance(1, 2) {
                 if let Some(MOp::W(k, v)) = i.ops.get_mut(1) {
